@@ -284,7 +284,8 @@ def run(R):
     # ---- path walk
     gf = R.need_fn("sqlgrep::data_model::JsonAccess::get_value")
     sws = A.enum_switches(gf, "data_model::JsonAccess")
-    allowed = re.compile(r"^serde_json::value::Value::(get|as_array)$")
+    # (`as_object()?.get(name)` is what `Value::get(name)` does for a string key: the explicit spelling of the object step)
+    allowed = re.compile(r"^serde_json::value::Value::(get|as_array|as_object)$|^serde_json::map::Map::get$")
     other_sj = [c for c in gf.calls if short(c.name).startswith("serde_json::") and not allowed.search(short(c.name))]
     for c in other_sj:
         R.violation("C02.walk", "get_value|api|" + short(c.name).split("::")[-1],
@@ -298,10 +299,18 @@ def run(R):
     for g in walkers:
         for c in g.calls:
             sn = short(c.name)
-            if sn == SJ + "get":
+            if sn == SJ + "get" or sn == "serde_json::map::Map::get":
                 n_field += 1
                 var, ty = F.place_variant_field(F.source_place(g, c.args[1]))
-                if var == "Field" and ty == "alloc::string::String":
+                if var is None:
+                    # `name.as_str()` / `&**name`: through the borrowing calls
+                    for o in F.origins(g, c.args[1], depth=8):
+                        if o.kind in ("arg", "place") and o.place is not None:
+                            v2, t2 = F.place_variant_field(o.place)
+                            if v2 is not None:
+                                var, ty = v2, t2
+                from_object = sn == SJ + "get" or any(o.kind == "call" and short(o.call.name) == SJ + "as_object" for o in F.origins(g, c.args[0], depth=10))
+                if var == "Field" and ty == "alloc::string::String" and from_object:
                     R.ok("C02.walk", "get_value|Field", "Value::get(<name of this Field step>)", c.loc(), nontrivial=(n_field == 1))
                 else:
                     R.violation("C02.walk", "get_value|Field", "an object step is not `json.get(name)` with the step's own name (key comes from %s)"
@@ -323,7 +332,7 @@ def run(R):
     if n_array == 0:
         R.violation("C02.walk", "get_value|Array", "array steps are not followed with as_array + get", [gf.loc()])
     # the inner step is followed: by recursion on (inner, found value) or by a loop that re-dispatches on the step kind
-    rec = [c for c in gf.calls if short(c.name) == "sqlgrep::data_model::JsonAccess::get_value"]
+    rec = [c for g_ in [gf] + PR.closures_of(P, gf) for c in g_.calls if short(c.name) == "sqlgrep::data_model::JsonAccess::get_value"]
     looped = any(PR.loop_of(gf, sw) for sw in sws)
     if rec or looped:
         R.ok("C02.walk", "get_value|recursion", "the inner step is followed (%s)" % ("recursion" if rec else "loop over the steps"), gf.loc())
